@@ -75,4 +75,44 @@ example : Dur.eqb ⟨-1, NPC - 900000000000⟩ ⟨0, 900000000000⟩ = true := b
 -- and the repaired defect stays repaired in the model: (1, NPC/4) ≠ (0, 3 NPC/4)
 example : Dur.eqb ⟨1, 788940000000000000⟩ ⟨0, 2366820000000000000⟩ = false := by decide
 
+
+/-! ### order and equality of RESULTS of arithmetic (the theorem behind the correspondence op `cmp_via`)
+
+Every arithmetic entry point returns a canonical duration (C01), so comparing a result with any canonical duration is
+comparing the (clamped) exact count with that duration's count — whatever the operands were.  A seeded change that left
+`(c, one century of ns)` behind `+=` or `abs` breaks exactly the `Canon` conjunct these statements rest on. -/
+
+theorem cmp_after_add (a b c : Dur) (ha : a.Canon) (hb : b.Canon) (hc : c.Canon) :
+    Dur.cmp (Dur.add a b) c = (if clampD (a.val + b.val) < c.val then -1 else if clampD (a.val + b.val) > c.val then 1 else 0) := by
+  have h := add_spec a b ha hb
+  rw [cmp_spec _ _ h.1 hc, h.2]
+
+theorem cmp_after_sub (a b c : Dur) (ha : a.Canon) (hb : b.Canon) (hc : c.Canon) :
+    Dur.cmp (Dur.sub a b) c = (if clampD (a.val - b.val) < c.val then -1 else if clampD (a.val - b.val) > c.val then 1 else 0) := by
+  have h := sub_spec a b ha hb
+  rw [cmp_spec _ _ h.1 hc, h.2]
+
+theorem cmp_after_neg_abs (a c : Dur) (ha : a.Canon) (hc : c.Canon) :
+    (∃ r, Dur.neg a = .ok r ∧ Dur.cmp r c = (if clampD (-a.val) < c.val then -1 else if clampD (-a.val) > c.val then 1 else 0)) ∧
+    (∃ r, Dur.abs a = .ok r ∧ Dur.cmp r c = (if clampD (if a.val < 0 then -a.val else a.val) < c.val then -1
+        else if clampD (if a.val < 0 then -a.val else a.val) > c.val then 1 else 0)) := by
+  obtain ⟨r1, e1, c1, v1⟩ := neg_spec a ha
+  obtain ⟨r2, e2, c2, v2⟩ := abs_spec a ha
+  exact ⟨⟨r1, e1, by rw [cmp_spec _ _ c1 hc, v1]⟩, ⟨r2, e2, by rw [cmp_spec _ _ c2 hc, v2]⟩⟩
+
+/-- a result compared with the freshly built duration of the same count is EQUAL (cmp = 0, == holds): the century landing
+    of the seeded changes, 36 524 days + 1 day against one century -/
+theorem result_equals_rebuilt (a b : Dur) (ha : a.Canon) (hb : b.Canon) :
+    Dur.cmp (Dur.add a b) (Dur.fromTotal (clampD (a.val + b.val))) = 0 ∧
+    Dur.eqb (Dur.add a b) (Dur.fromTotal (clampD (a.val + b.val))) = true := by
+  have h := add_spec a b ha hb
+  have f := fromTotal_spec (clampD (a.val + b.val))
+  have hv : (Dur.fromTotal (clampD (a.val + b.val))).val = clampD (a.val + b.val) := by
+    rw [f.2]; have := clampD_range (a.val + b.val); exact clampD_mid this.1 this.2
+  have he : Dur.add a b = Dur.fromTotal (clampD (a.val + b.val)) := canon_unique _ _ h.1 f.1 (by rw [h.2, hv])
+  rw [← he]
+  exact ⟨(cmp_eq_zero_iff _ _ h.1 h.1).mpr rfl, (eqb_spec _ _ h.1 h.1).mpr (Or.inl rfl)⟩
+
+example : Dur.add ⟨0, 36524 * 86400000000000⟩ ⟨0, 86400000000000⟩ = ⟨1, 0⟩ := by decide +kernel
+
 end Hifi.C03
